@@ -11,6 +11,7 @@ require (
 	github.com/magisterquis/goxterm v0.0.1-beta.2 // indirect
 	golang.org/x/sync v0.8.0 // indirect
 	golang.org/x/text v0.19.0 // indirect
+	golang.org/x/tools v0.26.0 // indirect
 )
 
 replace github.com/magisterquis/curlrevshell => /repo
